@@ -61,10 +61,21 @@ Applicable(e, p) ==
   /\ (e \in {"make_optional", "optional_to_union"} => p \notin {"optional", "vector_of_optional", "stream_of_optional"})
   /\ (e \in {"scalar_to_vector", "scalar_to_array", "vector_to_scalar"} => p \notin {"vector_item", "optional_vector"} \/ TRUE)
 
-Cases == { [edit |-> t.e, pos |-> p, class |-> Class(t.e)] : t \in TypeEdits, p \in Positions } \cup
-         { [edit |-> d.e, pos |-> "definition", class |-> Class(d.e)] : d \in DefEdits } \cup
-         { [edit |-> e, pos |-> p, class |-> Class(e)] : e \in RecordEdits, p \in RecordPositions }
-Enumerated == { c \in Cases : c.pos = "definition" \/ Applicable(c.edit, c.pos) }
+\* "To rename a record (or any other type definition), introduce a new alias to match the name in the previous version":
+\* every kind of named definition, used at every position, renamed with the old name kept as an alias (the protocol spelled with
+\* the new or with the old name), and the alias dropped again one version later.  All three are meaning-preserving.
+RenameKinds == {"record", "enum", "enum_based", "flags", "generic_record", "union_alias", "vector_alias", "generic_union", "map_alias"}
+RenamePositions == {"step", "stream_item", "vector_item", "optional", "field", "union_case", "generic_arg", "map_value"}
+RenameEdits == {"rename", "rename_keep_spelling", "drop_rename_alias"}
+RenameApplicable(k, p) == ~(k \in {"generic_record", "generic_union"} /\ p = "union_case")      \* an instantiated generic has no default tag
+RenameCases == { c \in { [edit |-> x[1] \o ":" \o x[2], pos |-> x[3], class |-> "meaning_preserving", ok |-> RenameApplicable(x[2], x[3])] :
+                           x \in RenameEdits \X RenameKinds \X RenamePositions } : c.ok }
+
+Cases == RenameCases \cup
+         { [edit |-> t.e, pos |-> p, class |-> Class(t.e), ok |-> TRUE] : t \in TypeEdits, p \in Positions } \cup
+         { [edit |-> d.e, pos |-> "definition", class |-> Class(d.e), ok |-> TRUE] : d \in DefEdits } \cup
+         { [edit |-> e, pos |-> p, class |-> Class(e), ok |-> TRUE] : e \in RecordEdits, p \in RecordPositions }
+Enumerated == { c \in Cases : c \in RenameCases \/ c.pos = "definition" \/ Applicable(c.edit, c.pos) }
 
 Required(c) == CASE c.class = "meaning_preserving" -> [exit |-> 0, warnings |-> "none", errors |-> "none"]
                  [] c.class = "compatible"         -> [exit |-> 0, warnings |-> "any", errors |-> "none"]
